@@ -256,6 +256,29 @@ def run_vector(vec):
                 tg = ("{C09,C10,C16}" if int_driver else "{C09,C10}") if cls == "stock" else "{C09}"
                 problems += [tagc + x for x in cmp_table(st.get_stock_by_cohort(), S.table2(vec["res"]["sbc"]), "stock_by_cohort", tg, scale)]
                 problems += [tagc + x for x in cmp_table(st.get_outflow_by_cohort(), S.table2(vec["res"]["obc"]), "outflow_by_cohort", tg, scale)]
+        # --- the driver handed over in ANOTHER order of the non-time dimensions (equal lengths): refused, or used by label
+        if len(S.extra) >= 2 and cls in ("inflow", "flow") and not int_driver and not problems:
+            try:
+                letters = ["t"] + [l for l, _ in S.extra][::-1]
+                pdims = S.dims.get_subset(tuple(letters))
+                turn = lambda a: np.ascontiguousarray(np.einsum("t" + "".join(l for l, _ in S.extra) + "->" + "".join(letters), a))
+                drv = flodym.StockArray(dims=pdims, values=turn(S.ints1(vec["driver"])))
+                try:
+                    if cls == "flow":
+                        st2 = flodym.SimpleFlowDrivenStock(dims=S.dims, time_letter="t", name="s", inflow=drv,
+                                                           outflow=flodym.StockArray(dims=pdims, values=turn(S.ints1(vec["driver2"]))))
+                    else:
+                        lm2, _ = S.lifetime_model(variant, via_set_prms=False)
+                        st2 = flodym.InflowDrivenDSM(dims=S.dims, time_letter="t", lifetime_model=lm2, name="s", inflow=drv)
+                except Exception:
+                    st2 = None          # refused: fine
+                if st2 is not None:
+                    st2.compute()
+                    if tuple(st2.stock.dims.letters) != tuple(S.dims.letters) or cmp_table(st2.stock.values, e_stock, "stock", "{C03}", scale):
+                        problems.append(tagc + "{C03,C13,C09} a driver array whose non-time dimensions are stored in another order was accepted and "
+                                               "used by position: the stock is not the stock of the labelled inflow")
+            except Exception as e:
+                problems.append(tagc + f"{{C03}} permuted-driver construction raised {type(e).__name__}: {str(e)[:120]}")
         # --- the library's own balance check accepts a computed stock and rejects a perturbed one
         if not all_ok:
             continue
